@@ -199,7 +199,7 @@ func c09GenGroups(schemeName string, seed uint64, thorough bool) []*c09Group {
 			// with the genuine key; second entry in Remaining, Leaving or Joining; both orders
 			for _, role := range []string{"leader", "member"} {
 				for _, where := range []string{"remaining", "leaving", "joining"} {
-					for _, order := range []string{"attacker-first", "genuine-first"} {
+					for _, order := range []string{"attacker-first", "genuine-first", "genuine-first-genuine-leader"} {
 						cell(c09Cell{Sender: role, Key: "sub", Variant: "self", Dup: where + "/" + order})
 					}
 				}
@@ -767,7 +767,10 @@ func (b *c09Builder) buildDup(g *c09Group, c *c09Cell) (out c09Built) {
 	} else {
 		*second = append(*second, proto.Clone(xp).(*drand.Participant))
 	}
-	t.Leader = proto.Clone(xp).(*drand.Participant)
+	if order != "genuine-first-genuine-leader" {
+		// (in the third order the leader entry keeps the genuine key: only the signature comes from the extra entry)
+		t.Leader = proto.Clone(xp).(*drand.Participant)
+	}
 	if n := len(t.Remaining) + len(t.Joining); int(t.Threshold) < n/2+1 {
 		t.Threshold = uint32(n/2 + 1)
 	}
